@@ -41,6 +41,10 @@ def parse_api(repo):
         else:
             kind, err = 'custom', None
         defs[name] = dict(ret=ret, kind=kind, err=err)
+    # the interruption API is global (no context argument): its three functions are defined in capi/geos_c.cpp
+    src0 = open(os.path.join(repo, 'capi/geos_c.cpp')).read()
+    for m in re.finditer(r'\n    ((?:const\s+)?[A-Za-z_][\w:<> ]*?[\*\s]*)\n    (GEOS_interrupt\w+)\s*\(([^{;]*?)\)\s*\n?\s*\{', src0, re.S):
+        defs[m.group(2)] = dict(ret=' '.join(m.group(1).split()), kind='custom', err=None)
     # wrappers report failure like the entry point they wrap
     for name, d in defs.items():
         seen = set()
@@ -59,7 +63,7 @@ def parse_api(repo):
     for name in sorted(defs):
         d = defs[name]
         doc = docs.get(name)
-        base = docs.get(name[:-2])
+        base = docs.get(name[:-2]) if name.endswith('_r') else None
         text = (doc or {}).get('text', '')
         if not text and base:
             text = base['text']
